@@ -21,7 +21,7 @@ RULE = ("call histories of length <= 6 over {connect, status, disconnect, discon
 class World:
     """one Connection under the scheduler"""
 
-    def __init__(self, C, servers, rl, rh):
+    def __init__(self, C, servers, rl, rh, re_=0):
         from minecraft.networking import packets as P
         from minecraft.networking.packets import clientbound as cb
         self.C = C
@@ -121,7 +121,7 @@ class World:
         S.enabled = enabled
         self.events = []
         self.sequential = False
-        self.rl, self.rh = [rl], [rh]
+        self.rl, self.rh, self.re = [rl], [rh], [re_]
 
         def on_exc(e, info):
             world.events.append(('exc', type(e).__name__, S.me()))
@@ -148,7 +148,14 @@ class World:
             networking_thread = _slot('nt')
             new_networking_thread = _slot('newnt')
         self.conn = IConnection('h', 1, username='u', allowed_versions={757}, handle_exception=on_exc,
-                                handle_exit=lambda: world.events.append(('exit',)))
+                                handle_exit=lambda: on_exit())
+
+        def on_exit():
+            world.events.append(('exit',))
+            if world.re[0] > 0:           # reconnect from inside the exit callback
+                world.re[0] -= 1
+                world.events.append(('exit-reconnect',))
+                world.conn.connect()
 
         def on_pkt(p):
             if world.rl[0] > 0:
@@ -214,8 +221,8 @@ def quiesce_choose(world, user_tids):
     return choose
 
 
-def run_world(C, servers, rl, rh, progs, mode, rng):
-    world = World(C, servers, rl, rh)
+def run_world(C, servers, rl, rh, progs, mode, rng, re_=0):
+    world = World(C, servers, rl, rh, re_)
     world.sequential = (mode == 'sequential')
     S = world.S
     outs = [[] for _ in progs]
@@ -269,7 +276,7 @@ def run_world(C, servers, rl, rh, progs, mode, rng):
         res['probe'] = None
         if not alive and not stuck and res['users_done'] and not S.errors:
             world.servers = world.servers[:res['conns']] + ['a'] * 4
-            world.rl[0] = world.rh[0] = 0
+            world.rl[0] = world.rh[0] = world.re[0] = 0
             pout = []
             pt = SC.user_thread(S, 50, lambda: world.api('c', pout))
             pt.start()
@@ -348,7 +355,7 @@ def oracle(ctx, servers, rl, rh, progs, r, label):
     stamped = [e for e in evs if e[0] in ('connected', 'disconnect-call')]
     if not bad and stamped and stamped[-1][0] == 'connected':
         _, at, attempt = stamped[-1]
-        later_reconnects = [e for e in evs[evs.index(stamped[-1]) + 1:] if e[0] in ('listener-reconnect', 'handler-reconnect')]
+        later_reconnects = [e for e in evs[evs.index(stamped[-1]) + 1:] if e[0] in ('listener-reconnect', 'handler-reconnect', 'exit-reconnect')]
         beh = servers[attempt - 1] if attempt - 1 < len(servers) else 'a'
         if beh == 'a' and not later_reconnects and attempt == r['conns'] and not (r['connected'] and r['sock'] and r['alive']):
             # who closed the socket of that last connection, and on which path?
@@ -408,8 +415,11 @@ def run(ctx):
         servers = [rng.choice('aaadfr') for _ in range(8)]
         rl = rng.choice([0, 0, 1])
         rh = rng.choice([0, 0, 1])
-        r = run_world(C, servers, rl, rh, progs, 'random', rng)
-        ctx.case(('par', tuple(map(tuple, progs)), tuple(servers), tuple(r['ran'])),
+        re_ = rng.choice([0, 0, 1])
+        r = run_world(C, servers, rl, rh, progs, 'random', rng, re_)
+        if re_:
+            ctx.count('par.exit-reconnect-budget')
+        ctx.case(('par', tuple(map(tuple, progs)), tuple(servers), re_, tuple(r['ran'])),
                  sample={'programs': progs, 'servers': servers, 'steps': len(r['ran']), 'outcomes': r['outs']})
         ctx.count('par.steps', len(r['ran']))
         oracle(ctx, servers, rl, rh, progs, r, 'two user threads')
